@@ -742,6 +742,12 @@ class BaseConnector:
                 if traces:
                     for trace in traces:
                         await trace.send_connection_queued_end()
+            except BaseException:
+                if fut.done() and not fut.cancelled():
+                    # We were woken up but will not take the slot
+                    # (cancelled or failed): wake up the next waiter
+                    self._release_waiter()
+                raise
             finally:
                 # pop the waiter from the queue if its still
                 # there and not already removed by _release_waiter
